@@ -32,6 +32,7 @@ type Ctx struct {
 	prevKeep int // number of leading decisions whose solver state is kept from the previous path
 	prevLevels []int
 	Queries  int
+	decided  map[*smt.Term]bool
 	Concretized int
 	FeasMs   int
 	ObligMs  int
@@ -88,6 +89,27 @@ func (c *Ctx) Branch(cond *smt.Term) bool {
 	if cond.IsFalse() {
 		return false
 	}
+	if c.decided == nil {
+		c.decided = map[*smt.Term]bool{}
+	}
+	if v, ok := c.decided[cond]; ok {
+		return v
+	}
+	if cond.Op == smt.OpNot {
+		if v, ok := c.decided[cond.Args[0]]; ok {
+			return !v
+		}
+	}
+	defer func() {
+		if len(c.Lits) > 0 {
+			l := c.Lits[len(c.Lits)-1]
+			if l == cond {
+				c.decided[cond] = true
+			} else if l.Op == smt.OpNot && l.Args[0] == cond || cond.Op == smt.OpNot && cond.Args[0] == l {
+				c.decided[cond] = false
+			}
+		}
+	}()
 	i := len(c.Trace)
 	if i < len(c.prefix) {
 		d := c.prefix[i]
@@ -205,6 +227,43 @@ func (c *Ctx) constOf(t *smt.Term, val *big.Int) *smt.Term {
 		return c.St.FPConstBits(val.Uint64())
 	}
 	return c.St.BVConst(val, t.Sort.W)
+}
+
+// Assume adds cond to the path condition without exploring its negation; returns
+// false when cond is infeasible on this path.
+func (c *Ctx) Assume(cond *smt.Term) bool {
+	if cond.IsTrue() {
+		return true
+	}
+	if cond.IsFalse() {
+		return false
+	}
+	i := len(c.Trace)
+	if i < len(c.prefix) {
+		d := c.prefix[i]
+		c.Trace = append(c.Trace, d)
+		c.Lits = append(c.Lits, cond)
+		if i < c.prevKeep {
+			c.levels = append(c.levels, c.prevLevels[i])
+			return true
+		}
+		c.assertDecision(cond)
+		c.levels = append(c.levels, c.Solver.Level())
+		return true
+	}
+	c.Queries++
+	r, err := c.Solver.CheckWith(cond, c.FeasMs)
+	if err != nil {
+		abortf("solver error: %v", err)
+	}
+	if r == smt.Unsat {
+		return false
+	}
+	c.Trace = append(c.Trace, Decision{Val: 1, N: 1})
+	c.Lits = append(c.Lits, cond)
+	c.assertDecision(cond)
+	c.levels = append(c.levels, c.Solver.Level())
+	return true
 }
 
 // Choose is an n-way nondeterministic choice (no solver involved).
